@@ -516,7 +516,10 @@ def fleet_part(ck, eng, dbbin):
     NodeHost that reported more recently than the timeout is free (schedpipe.mon_placement, from the report history)."""
     import schedengine as se, schedpipe as sp
     quick = ck.tier == "quick"
-    traces = [sp.gen_fleet_trace(ck.rng, eng.ttl, eng.step) for _ in range(36 if quick else 900)]
+    # the grid: behaviour of the ONLY spare NodeHost x round at which the member's NodeHost goes silent; then PRNG fleets
+    traces = [sp.gen_fleet_trace(ck.rng, eng.ttl, eng.step, spare=sk, k_off=ko) for _ in range(1 if quick else 12)
+              for sk in sp.SPARE_KINDS for ko in sp.K_OFFSETS]
+    traces += [sp.gen_fleet_trace(ck.rng, eng.ttl, eng.step) for _ in range(15 if quick else 900)]
     deng, res = sp.run_db(ck, dbbin, traces, "c05fleet")
     if res is None:
         return
@@ -525,7 +528,7 @@ def fleet_part(ck, eng, dbbin):
     if obs is None:
         return
     flagged, nb = set(), 0
-    st = dict(rounds=len(ctxs), adds=0, errors=0, panics=0, due=0, longest=0, placements_later_than_2ttl=0)
+    st = dict(rounds=len(ctxs), adds=0, errors=0, panics=0, due=0, longest=0, adds_onto_hosts_known_longer_than_ttl=0)
     first_tick = {}
     for i, (c, o) in enumerate(zip(ctxs, obs)):
         if not c.get("chain"):
@@ -539,7 +542,7 @@ def fleet_part(ck, eng, dbbin):
         adds = [q for q in o[1] if q["type"] == se.ADD] if o[0] == "B" else []
         st["adds"] += len(adds)
         # the dimension: a placement onto a NodeHost that the long-lived scheduler has known for longer than the timeout
-        st["placements_later_than_2ttl"] += sum(1 for q in adds if q["addrs"] and c["tick"] - first_tick.get(q["addrs"][0], c["tick"]) > eng.ttl)
+        st["adds_onto_hosts_known_longer_than_ttl"] += sum(1 for q in adds if q["addrs"] and c["tick"] - first_tick.get(q["addrs"][0], c["tick"]) > eng.ttl)
         st["longest"] = max(st["longest"], len(se.chain_prefix(ctxs, i)))
         ck.count_case("fleet:" + se.ctx_line(c), nontrivial=(o[0] != "B" or bool(o[1])))
         bad = sp.mon_placement(v, o, c)
